@@ -26,6 +26,8 @@ const (
 	ErrNoFanoutField errorType = "'Fanout' field not present"
 	// ErrHAMTSizeInvalid indicates the HAMT's size property was not an exact power of 2
 	ErrHAMTSizeInvalid errorType = "hamt size should be a power of two"
+	// ErrHAMTFanoutMismatch indicates a child shard declared a different fanout than its parent
+	ErrHAMTFanoutMismatch errorType = "hamt child shard fanout differs from its parent"
 	// ErrMissingLinkName indicates a link in a HAMT had no Name property (required for all HAMTs)
 	ErrMissingLinkName errorType = "missing link name"
 )
